@@ -78,7 +78,10 @@ pub fn set_rules_dir(dir: String) -> Result<()> {
         dir
     };
     let pref_manager = crate::prefs::PreferenceManager::get();
-    return pref_manager.borrow_mut().initialize(PathBuf::from(dir));
+    pref_manager.borrow_mut().initialize(PathBuf::from(dir))?;
+    // the contents of the directory might differ from what was read before, even if the path is the same
+    crate::speech::invalidate_rule_files();
+    return Ok( () );
 }
 
 /// Returns the version number (from Cargo.toml) of the build
